@@ -1,3 +1,4 @@
+#![recursion_limit = "256"]
 mod dsl;
 mod gen;
 mod harness;
@@ -333,6 +334,7 @@ fn cmd_check(a: Args) -> i32
                 "entity_world_reactor_member_re_added": s.ewr_readd, "bulk_signals_released_between_two_collections": s.bulk_collected
             },
             "rare_condition_probes": {
+                "watched_entity_stripped_while_alive_then_despawned": s.reactor_strip,
                 "postponed_deliveries": s.postponed, "max_postponed_for_one_target": s.max_postponed_one_target, "nested_replay": s.nested_replay, "payload_with_zero_listeners": s.payload_zero_listeners,
                 "same_system_two_kinds_one_tree": s.multi_kind_same_tree, "removal_reinsert_removal_between_polls": s.removal_reinsert_removal, "once_fired": s.once_fired,
                 "once_triggered_again_after_firing": s.once_retrigger_after_fire, "seven_or_more_reactors_on_one_key": s.reactors_per_key_ge7, "exclusive_reactor_bodies": s.excl_bodies,
@@ -357,7 +359,7 @@ fn cmd_check(a: Args) -> i32
             "Bevy's command semantics: a system's commands apply in order, each fully, before the next",
             "single-threaded executor of the pinned feature set (no multi_threaded feature)",
             "generator bounds of DESIGN 2.1 (no duplicate live type-wide / despawn registration of one reactor across calls; ref-counted registration at most once per system; same-key recursion of the syscall family only as documented)",
-            "ambiguity rulings A1-A7 of DESIGN 4.3 (both behaviours accepted where the properties are silent; where collections happen is the implementation's choice)",
+            "ambiguity rulings A1-A8 of DESIGN 4.3 (both behaviours accepted where the properties are silent; where collections happen is the implementation's choice)",
             "the cfg(ukoehb_bevy_cobweb_verif) hooks report runner events and internal table sizes faithfully; the harness's own remove hook reports despawns of slot entities"
         ],
         "wall_s": wall,
